@@ -303,6 +303,8 @@ C01.defined: wherever constraints_and_type_name renders a component with the `<P
     ctx.floor("C01.text2tok/fns-with-sites", sites.len(), 12);
     ctx.extra.insert("text2tok_sites".into(), json!(sites));
     defined(m, ctx, "C01.defined");
+    // names that are referred to are the names that are generated (shared with C02.defname)
+    crate::rules::c02::defname(m, ctx, "C01.defname");
 }
 
 /// C01.defined: a component's type is rendered by `constraints_and_type_name`, which names an anonymous inner type
